@@ -336,10 +336,7 @@ func (x *Exec) specIdent(env *Env, id *ast.Ident) (Val, error) {
 	if v, ok := env.lets[name]; ok {
 		return v, nil
 	}
-	if name == "result" {
-		if !env.post || len(env.results) == 0 {
-			return Val{}, fmt.Errorf("result used outside post-condition")
-		}
+	if name == "result" && env.post && len(env.results) > 0 {
 		return env.results[0], nil
 	}
 	if strings.HasPrefix(name, "result") && env.post {
@@ -862,6 +859,9 @@ func (x *Exec) specCall(env *Env, c *ast.CallExpr) (Val, error) {
 		case "abs":
 			return mInt("(iabs " + a + ")"), nil
 		case "pow2":
+			if b, ok := litVal(a); ok && b.IsInt64() && b.Int64() >= 0 && b.Int64() <= 200 {
+				return mInt(pow2str(int(b.Int64()))), nil
+			}
 			return mInt("(pow2 " + a + ")"), nil
 		}
 		b, err := argInt(1)
